@@ -68,11 +68,11 @@ theorem test_foldLogs (idx3 : Bytes → Idx3) (logs : List Log) (b : Bloom) (l :
         fun t ht => test_mono (le_foldLogs idx3 r _) _ (test_addLog_topic idx3 b l t ht)⟩
     · exact ih _ h
 
-theorem mem_allLogs {receipts : List (Option (List Log))} {logs : List Log} {l : Log}
-    (hr : some logs ∈ receipts) (hl : l ∈ logs) : l ∈ allLogs receipts := by
+theorem mem_allLogs {receipts : List (Option Receipt)} {r : Receipt} {l : Log}
+    (hr : some r ∈ receipts) (hl : l ∈ r.logs) : l ∈ allLogs receipts := by
   unfold allLogs
   rw [List.mem_flatten]
-  exact ⟨logs, List.mem_filterMap.mpr ⟨some logs, hr, rfl⟩, hl⟩
+  exact ⟨r.logs, List.mem_map.mpr ⟨r, List.mem_filterMap.mpr ⟨some r, hr, rfl⟩, rfl⟩, hl⟩
 
 /-! ## generator -/
 
